@@ -86,6 +86,15 @@ func init() {
 
 var root string
 var partsTag string
+var altFiles []string
+
+// exit removes the artefacts of a VERIF_REPO sensitivity run, then exits.
+func exit(code int) {
+	for _, f := range altFiles {
+		_ = os.RemoveAll(f)
+	}
+	os.Exit(code)
+}
 
 func hashString(s string) uint32 {
 	h := uint32(2166136261)
@@ -141,7 +150,7 @@ func main() {
 		gm, err := os.ReadFile(filepath.Join(root, "go.mod"))
 		if err != nil {
 			fmt.Printf("BUILD-FAILED property=%s (cannot read go.mod)\n", ID)
-			os.Exit(2)
+			exit(2)
 		}
 		tag := fmt.Sprintf("%x", hashString(alt))
 		mf := filepath.Join(build, "alt-"+tag+".mod")
@@ -152,6 +161,7 @@ func main() {
 		bin = filepath.Join(build, strings.ToLower(ID)+"-"+tag+".test")
 		args = []string{"test", "-c", "-tags", "verif", "-vet=off", "-modfile", mf, "-o", bin}
 		partsTag = "-" + tag
+		altFiles = []string{mf, filepath.Join(build, "alt-"+tag+".sum"), bin, filepath.Join(build, "parts", ID+partsTag), filepath.Join(build, "evidence"+partsTag+"-"+ID+".json")}
 		fmt.Printf("NOTE building against %s instead of /repo (sensitivity run)\n", alt)
 	}
 	if cfg.Race {
@@ -163,7 +173,7 @@ func main() {
 	cmd.Env = env
 	if out, err := cmd.CombinedOutput(); err != nil {
 		fmt.Printf("BUILD-FAILED property=%s (cannot decide)\n%s\n", ID, out)
-		os.Exit(2)
+		exit(2)
 	}
 
 	if *replay != "" {
@@ -177,12 +187,12 @@ func main() {
 		out, err := c.CombinedOutput()
 		os.Stdout.Write(out)
 		if bytes.Contains(out, []byte("\nVIOLATION property=")) {
-			os.Exit(1)
+			exit(1)
 		}
 		if err != nil {
-			os.Exit(2)
+			exit(2)
 		}
-		os.Exit(0)
+		exit(0)
 	}
 
 	shards := cfg.QuickShards
@@ -274,12 +284,13 @@ func main() {
 	}
 	switch {
 	case violation:
-		os.Exit(1)
+		exit(1)
 	case infra:
 		fmt.Printf("INCONCLUSIVE property=%s (infrastructure problem, see above)\n", ID)
-		os.Exit(2)
+		exit(2)
 	}
 	fmt.Printf("OK property=%s tier=%s shards=%d wall=%.1fs\n", ID, *tier, shards, time.Since(start).Seconds())
+	exit(0)
 }
 
 func tail(s string, n int) string {
